@@ -162,7 +162,7 @@ def run(tier):
             if clause in seen:
                 continue
             seen.add(clause)
-            V.report(dict(clause=clause, site="dykstra", cls="+".join(byid[tid]["sets"]), what="dykstra call %d of instance %d: clause %s false (%s)" % (l, tid, clause, tr[tid]["ev"][l - 1]),
+            V.report(dict(clause=clause, site="dykstra", cls="tol=%g" % byid[tid]["tol"], sets="+".join(byid[tid]["sets"]), what="dykstra call %d of instance %d: clause %s false (%s)" % (l, tid, clause, tr[tid]["ev"][l - 1]),
                           instance=dict(kind="c15_instance", inst=byid[tid], call=l)))
     ncalls = sum(t["summary"]["nev"] for t in traces)
     cov = dict(states=states, transitions=trans, model_runs=detail, traces_validated_against_impl=len(traces), dykstra_calls=ncalls,
